@@ -477,6 +477,35 @@ func histories(w *run.Worker, r *run.Runner, tier string) {
 		{"let n = 1; let p = n; T | take p | where a == n", 4},
 		{"T | join kind=bogus (R) on k", 0},
 		{"T | where f(x) == strcat(a, 'p')", 4},
+		// calls that fail after bindings were made, and calls that mention those names unbound
+		{"let n = 5; let q = 1; T | where not(a, b)", 3},
+		{"let n = 5; T | where $left.a == p", 4},
+		{"T | project n, p, q", -1},
+		{"T | take n", 1},
+		{"let lim = n; T | take lim", 2},
+	}
+	// nil, zero value and empty map are equivalent on every kind of source
+	for _, src := range []string{"let n = 10; T | take n", "let n = 1; let m = n + 1; T | where a == m | take n", "T | where p == 1", "let p = 2; T | where not(p, 1)", "T | join kind=x (R) on k"} {
+		var rs []result
+		for _, oi := range []int{0, 1, 2} {
+			rt.Restore()
+			var got result
+			func() {
+				defer func() {
+					if p := recover(); p != nil {
+						got = result{Err: fmt.Sprintf("panic: %v", p)}
+					}
+				}()
+				got = doCall(call{"compile", src, oi}, mkOptions())
+			}()
+			rs = append(rs, got)
+		}
+		rt.Restore()
+		plain := doCall(call{"compile", src, -1}, mkOptions())
+		if rs[0] != rs[1] || rs[1] != rs[2] || rs[0] != plain {
+			w.Begin("histories", src)
+			w.Fail("options-not-equivalent", src, fmt.Sprintf("pql.Compile / nil / zero / empty-map options give different results: %+v | %+v | %+v | %+v", plain, rs[0], rs[1], rs[2]), nil)
+		}
 	}
 	depth := 3
 	if tier == "thorough" {
